@@ -94,6 +94,9 @@ pub fn aggregate_corpus(items: &[&str], rich: bool) -> Vec<String> {
     out.push("SELECT k, SUM(v) FROM t GROUP BY k HAVING COUNT(*) > 1".into());
     out.push("SELECT k, COUNT(*) FROM t GROUP BY k HAVING k IS NOT NULL".into());
     out.push("SELECT k, MAX(v) FROM t GROUP BY k HAVING SUM(v) > 2".into());
+    out.push("SELECT k, COUNT(*) FROM t GROUP BY k HAVING MAX(v) < 3".into());
+    out.push("SELECT k, MIN(v) FROM t GROUP BY k HAVING COUNT(*) < 2".into());
+    out.push("SELECT COUNT(*) FROM t HAVING COUNT(*) < 2".into());
     out.push("SELECT k, b, COUNT(*) FROM t GROUP BY k, b".into());
     out.push("SELECT upper(k), COUNT(*) FROM t GROUP BY upper(k)".into());
     out.push("SELECT v, COUNT(*) FROM t GROUP BY v".into());
